@@ -141,6 +141,22 @@ impl Scenario {
     }
 }
 
+/// What an application does with an error it is handed: print it (Display and Debug) and follow its source chain.
+/// Nothing is checked except that this returns.
+pub fn walk_error(e: &(dyn std::error::Error + 'static)) {
+    let _ = format!("{} {:?} {:#?}", e, e, e);
+    let mut src = e.source();
+    let mut depth = 0;
+    while let Some(s) = src {
+        let _ = format!("{} {:?}", s, s);
+        src = s.source();
+        depth += 1;
+        if depth > 16 {
+            break;
+        }
+    }
+}
+
 fn proto_kind(e: &MpdProtocolError) -> String {
     match e {
         MpdProtocolError::InvalidMessage => "InvalidMessage".to_string(),
@@ -149,6 +165,7 @@ fn proto_kind(e: &MpdProtocolError) -> String {
 }
 
 pub fn cmd_err(e: CommandError) -> CallResult {
+    walk_error(&e);
     match e {
         CommandError::ConnectionClosed => CallResult::ErrClosed,
         CommandError::Protocol(p) => CallResult::ErrProtocol(proto_kind(&p)),
@@ -327,7 +344,7 @@ async fn collect_events(world: World, mut events: ConnectionEvents, gate: Option
                     mpd_client::client::ConnectionError::Protocol(p) => format!("Protocol({})", proto_kind(p)),
                     mpd_client::client::ConnectionError::InvalidResponse => "InvalidResponse".to_string(),
                 };
-                let _ = format!("{} {:?}", e, e);
+                walk_error(&e);
                 world.log_ev(EvKind::EventClosed(d));
             }
             None => {
@@ -403,12 +420,21 @@ async fn session_main(sc: Scenario, d: Duration) -> Outcome {
     let io = world.io();
     let connected = tokio::time::timeout(far, async {
         match &sc.connect {
-            ConnectKind::Plain => Client::connect(io).await.map_err(|e| format!("Protocol({})", proto_kind(&e))),
-            ConnectKind::Password(p) => Client::connect_with_password(io, p).await.map_err(|e| match e {
+            ConnectKind::Plain => Client::connect(io).await.map_err(|e| {
+                walk_error(&e);
+                format!("Protocol({})", proto_kind(&e))
+            }),
+            ConnectKind::Password(p) => Client::connect_with_password(io, p).await.map_err(|e| {
+                walk_error(&e);
+                e
+            }).map_err(|e| match e {
                 ConnectWithPasswordError::IncorrectPassword => "IncorrectPassword".to_string(),
                 ConnectWithPasswordError::ProtocolError(e) => format!("Protocol({})", proto_kind(&e)),
             }),
-            ConnectKind::PasswordOpt(p) => Client::connect_with_password_opt(io, p.as_deref()).await.map_err(|e| match e {
+            ConnectKind::PasswordOpt(p) => Client::connect_with_password_opt(io, p.as_deref()).await.map_err(|e| {
+                walk_error(&e);
+                e
+            }).map_err(|e| match e {
                 ConnectWithPasswordError::IncorrectPassword => "IncorrectPassword".to_string(),
                 ConnectWithPasswordError::ProtocolError(e) => format!("Protocol({})", proto_kind(&e)),
             }),
@@ -431,6 +457,7 @@ async fn session_main(sc: Scenario, d: Duration) -> Outcome {
         }
         Ok(Ok((client, events))) => {
             out.connect = Some(Ok(client.protocol_version().to_string()));
+            let _ = format!("{:?} {:#?}", client, client);
             (client, events)
         }
     };
